@@ -19,10 +19,11 @@ import (
 )
 
 type vC17Cmd struct {
-	Op   string   `json:"op"`            // pin unpin add rm sync obs restart snap
-	Node int      `json:"node"`          // pin/unpin/add/rm: issuing member relative to the leader; restart/snap: relative target
-	Peer int      `json:"peer"`          // add/rm: absolute node slot 0..3
-	Pin  *vC01Pin `json:"pin,omitempty"` // pin unpin
+	Op   string   `json:"op"`             // pin unpin add rm sync obs restart snap
+	Node int      `json:"node"`           // pin/unpin/add/rm: issuing member relative to the leader; restart/snap: relative target
+	Peer int      `json:"peer"`           // add/rm: absolute node slot
+	Slow bool     `json:"slow,omitempty"` // add: the joiner's FSM is held back (entries stay queued) while it waits for sync
+	Pin  *vC01Pin `json:"pin,omitempty"`  // pin unpin
 }
 
 type vC17Case struct {
@@ -75,7 +76,7 @@ func vC17Gen(r *vRand) vC17Case {
 			c.Cmds = append(c.Cmds, vC17Cmd{Op: "unpin", Node: at, Pin: &vC01Pin{Cid: r.intn(ncids), Type: 2, MaxDepth: -1, Update: -1, Ref: -1}})
 		case x < 68:
 			p := pick(r.chance(25)) // mostly a peer that is not a member; sometimes a present one (no-op)
-			c.Cmds = append(c.Cmds, vC17Cmd{Op: "add", Node: at, Peer: p})
+			c.Cmds = append(c.Cmds, vC17Cmd{Op: "add", Node: at, Peer: p, Slow: r.chance(15)})
 			member[p] = true
 		case x < 82:
 			p := pick(!r.chance(25)) // mostly a member; sometimes an absent peer (no-op)
@@ -191,7 +192,9 @@ func vC17Run(c vC17Case) (res vC17Result) {
 	}
 	peersAfter := func() ([]int, bool) {
 		// the configuration every live member agrees on once things are quiet
-		rig.quiesce(10 * time.Second)
+		if !rig.quiesce(10 * time.Second) {
+			return nil, false
+		}
 		l := rig.leader(5 * time.Second)
 		if l == nil {
 			return nil, false
@@ -278,6 +281,9 @@ func vC17Run(c vC17Case) (res vC17Result) {
 			}
 			if !was {
 				// a joiner: a running peer with no configuration of its own (as a staging peer)
+				if cmd.Slow {
+					rig.closeGate(k)
+				}
 				if err := rig.start(j); err != nil {
 					res.skipped = "start joiner: " + err.Error()
 					return
@@ -287,6 +293,7 @@ func vC17Run(c vC17Case) (res vC17Result) {
 			idxAtReturn := rig.maxIdx()
 			after, oka := peersAfter()
 			if !oka {
+				rig.openGate(k)
 				res.skipped = "no leader after AddPeer"
 				return
 			}
@@ -300,19 +307,45 @@ func vC17Run(c vC17Case) (res vC17Result) {
 				res.stats["add_present"]++
 			}
 			if !was && !landed {
+				rig.openGate(k)
 				rig.stop(j)
 				j.removed = true
 			}
 			if !was && landed && err == nil {
 				// the joiner waits to be in sync, as Cluster.Join / the consensus bootstrap do
-				werr := j.cc.WaitForSync(ctx)
+				done := make(chan error, 1)
+				go func() { done <- j.cc.WaitForSync(ctx) }()
+				var werr error
+				if cmd.Slow {
+					res.stats["slow_join"]++
+					// the joiner's FSM has applied nothing yet: WaitForSync is expected to keep waiting (short, bounded wait)
+					select {
+					case werr = <-done:
+						if werr == nil {
+							rig.observeReady(j, idxAtReturn) // ready while its FSM is behind: recorded as observed
+							res.stats["ready_while_held"]++
+						}
+						rig.openGate(k)
+					case <-time.After(1500 * time.Millisecond):
+						rig.openGate(k)
+						werr = <-done
+						if werr == nil {
+							rig.observeReady(j, idxAtReturn)
+						}
+					}
+				} else {
+					werr = <-done
+					if werr == nil {
+						rig.observeReady(j, idxAtReturn)
+					}
+				}
 				if werr != nil {
 					res.stats["waitforsync_err"]++
 				} else {
-					rig.observeReady(j, idxAtReturn)
 					res.stats["ready"]++
 				}
 			}
+			rig.openGate(k)
 		case "rm":
 			k := vC01Clamp(cmd.Peer, vC17Slots)
 			j := rig.nodes[k]
@@ -326,18 +359,14 @@ func vC17Run(c vC17Case) (res vC17Result) {
 			}
 			was := vC17Has(before, k)
 			err := at.cc.RmPeer(ctx, j.id)
-			if was && err == nil {
-				// Cluster.watchPeers: a peer that sees itself removed shuts down
-				rig.stop(j)
-				j.removed = true
-			}
 			after, oka := peersAfter()
 			if !oka {
 				res.skipped = "no leader after RmPeer"
 				return
 			}
 			landed := !vC17Has(after, k)
-			if was && landed && !j.removed {
+			if was && landed {
+				// Cluster.watchPeers: a peer that sees itself removed shuts down
 				rig.stop(j)
 				j.removed = true
 			}
